@@ -27,6 +27,7 @@ CONSTANTS Mods,       \* module names that may occur in descriptions
           ExtraM,     \* module names never described (unknown module)
           ExtraP,     \* accessible names that are never parameters ("" = bare module is always offered)
           CmdP,       \* the ones among them which are commands of every described module
+          DescCmds,   \* names of the commands every described module has (for the name maps only)
           Wires,      \* wire value ids offered in messages
           ValidW,     \* the ones the parameter's datatype imports; the rest is rejected
           ENames,     \* error class names offered in error reports
@@ -93,6 +94,14 @@ Resolve(a, id, d) ==
   IF id[2] # "" THEN (IF id \in d THEN id ELSE NoKey)
   ELSE LET k == <<id[1], IF a = "changed" THEN "target" ELSE "value">>
        IN IF k \in d THEN k ELSE NoKey
+
+(* the client's name maps: accessible (module, internal name) -> identifier on the wire and back.  Identifiers are  *)
+(* written here as the (module, internal name) they denote, so both maps must be the identity on the described       *)
+(* accessibles - in particular inverse to each other: two accessibles of a module never share an internal name       *)
+(* (custom "_target" next to the predefined "target"), and the cache / callback key of a message is the internal     *)
+(* name of exactly its identifier (Resolve).                                                                         *)
+Accessibles(d) == d \cup {<<k[1], c>> : k \in d, c \in DescCmds}
+NameMaps(d) == {<<a, a>> : a \in Accessibles(d)}
 
 IsValue(msg) == msg.action \in ValueActions
 Handled(msg, d) == /\ msg.action \notin ReplyOnlyActions
